@@ -29,6 +29,8 @@ func init() {
 	reg("C08", ruleWriteIfNeeded)                            // C08-22: a stale generated file next to regenerated ones
 	reg("C03", ruleStateMachine)                             // C03-24: an end-of-stream marker emitted in the middle of a stream
 	reg("C20", ruleCollectPackages)                          // C20-23: an import cycle that is not detected wedges the watcher
+	reg("C11", rulePrunes(topoSortFiles, "V5", 2))           // C11-25: the cycle check stopped at references into other namespaces
+	reg("C09", ruleVariablesShadowFields)                    // C09-25
 	reg("C10", ruleResolvedDefinitionSwitchesResolveAliases) // fix 7bf9700: a Go panic of `yardl generate` on an accepted package
 }
 
